@@ -311,6 +311,36 @@ def gen_malformed(rng, quick=True):
     s1b = s1b[:3] + b'1' + s1b[4:]
     out.append(Case('m-level-9-then-1-overfull', s9a + s1b,
                     'concat-levels-overfull'))
+    # zero runs whose length wraps a 32-bit counter: 2^32 + r coded with 32
+    # run symbols, CRC/origPtr of the r-byte block a wrapping decoder would
+    # see; alone (slow symbol path) and followed by enough data for the fast
+    # path (>= 32 words after the group)
+    for r in (3, 2):
+        for N in ((1 << 32) + r, (1 << 33) + (1 << 32) + r, (1 << 31) + r):
+            used = [0x41, 0x42, 0x43]
+            lens = [2, 2, 2, 3, 3]        # RUNA RUNB MTF1 MTF2 EOB
+            for tail in (False, True):
+                w = BitWriter()
+                w.put(8, 0x42)
+                w.put(8, 0x5A)
+                w.put(8, 0x68)
+                w.put(8, 0x39)
+                want = B.run_syms(r) + [2, 3, 2, 2, 3, 3, 2]
+                sent = B.run_syms(N) + [2, 3, 2, 2, 3, 3, 2]
+                info = B.make_raw_block(w, used, [lens, lens], [0, 0], want,
+                                        sent_syms=sent)
+                cc = B.combine(0, info['crc'])
+                if tail:
+                    i2 = B.make_block(w, bytes(rng.randrange(256)
+                                               for _ in range(400)), 9, rng)
+                    cc = B.combine(cc, i2['crc'])
+                w.put(48, B.EOS_MAGIC)
+                w.put(32, cc)
+                w.align()
+                out.append(Case('m-runwrap-%d-%d-%s' % (N.bit_length(), r,
+                                                        'tail' if tail else
+                                                        'alone'), w.bytes(),
+                                'run-length-wrap'))
     # too few selectors for the symbols present -> unterminated block
     wtmp = BitWriter()
     pl = bytes(rng.randrange(7) for _ in range(400))
